@@ -20,6 +20,7 @@ type RunResult struct {
 	Cfg      Config      `json:"config"`
 	Intents  []Intent    `json:"intents"`
 	Viol     *Violation  `json:"violation,omitempty"`
+	Viols    []*Violation `json:"violations,omitempty"`
 	CrashStr string      `json:"crash,omitempty"`
 	Crash    *hub.Crash  `json:"-"`
 	Stats    *Stats      `json:"stats"`
@@ -77,6 +78,15 @@ func finalize(prop string, w *World, res *RunResult) {
 	}
 	if w.Viol != nil && w.Viol.Property == prop {
 		res.Viol = w.Viol
+		res.Viols = append(res.Viols, w.Viol)
+	}
+	for _, n := range w.Notes {
+		if n.Property == prop {
+			res.Viols = append(res.Viols, n)
+			if res.Viol == nil {
+				res.Viol = n
+			}
+		}
 	}
 	res.Shape = shapeOf(w, res.Intents)
 	res.NonTriv = w.St.Probes["nontrivial"] > 0
@@ -173,7 +183,12 @@ func Minimise(prop string, cfg Config, intents []Intent, sig string, budget int)
 	same := func(c []Intent) bool {
 		tries++
 		r := Replay(prop, cfg, c, false)
-		return r.Viol != nil && r.Viol.Signature() == sig
+		for _, v := range r.Viols {
+			if v.Signature() == sig {
+				return true
+			}
+		}
+		return false
 	}
 	// cut the tail after the failing intent first
 	n := 2
@@ -240,14 +255,14 @@ type ReplayFile struct {
 	Crash       string     `json:"crash,omitempty"`
 }
 
-func WriteReplay(dir string, res *RunResult, min []Intent) (string, error) {
+func WriteReplay(dir string, res *RunResult, viol *Violation, min []Intent) (string, error) {
 	if err := os.MkdirAll(dir, 0o755); err != nil {
 		return "", err
 	}
-	sig := res.Viol.Signature()
+	sig := viol.Signature()
 	h := sha256.Sum256([]byte(sig))
 	path := fmt.Sprintf("%s/%s-%d-%s.json", dir, res.Property, res.Seed, hex.EncodeToString(h[:4]))
-	rf := ReplayFile{Property: res.Property, Signature: sig, Violation: res.Viol, Seed: res.Seed, Config: res.Cfg, Intents: min, OriginalLen: len(res.Intents), Crash: res.CrashStr}
+	rf := ReplayFile{Property: res.Property, Signature: sig, Violation: viol, Seed: res.Seed, Config: res.Cfg, Intents: min, OriginalLen: len(res.Intents), Crash: res.CrashStr}
 	b, _ := json.MarshalIndent(rf, "", " ")
 	return path, os.WriteFile(path, b, 0o644)
 }
